@@ -222,6 +222,17 @@ Theorem C32_momentum_keys_distinct :
 Proof. intro n. split; [apply leaf_keys_NoDup | split; [apply leaf_keys_length | apply leaf_keys_shared_dup]]. Qed.
 
 (* ------------------------------------------------------------------------------------------
+   (7) generate_n_samples returns the core state after the last transition, so for EVERY transition
+   function a chain of n samples continued for m more from the returned state is the chain of n + m
+   samples (same samples, same final state). *)
+Theorem C32_chain_resume :
+  forall (St Smp : Type) (next : St -> Smp * St) (n m : nat) (st : St),
+    chain_run St Smp next (n + m) st =
+    (fst (chain_run St Smp next n st) ++ fst (chain_run St Smp next m (snd (chain_run St Smp next n st))),
+     snd (chain_run St Smp next m (snd (chain_run St Smp next n st)))).
+Proof. exact chain_run_app. Qed.
+
+(* ------------------------------------------------------------------------------------------
    Non-vacuity: the ring hypotheses are met by Qc (with its field division), and the checkpoint
    theorem's hypotheses by n = 7 (reads slots 0,1,2 holding leaves 0,4,6). *)
 From Coq Require Import Qcanon.
